@@ -2,8 +2,17 @@ import PV.Lemmas.SocketCalls
 /-!
 # Descriptor-level lemmas of the socket family (property C10)
 
-* `cloexec_new`, `cloexec_accept`: close-on-exec on every descriptor that is kept.
-* `fd_closed_once`: descriptor balance along any sequence of API calls.
+* `cloexec_new`, `cloexec_accept`: close-on-exec on every descriptor that is kept, given the kernel
+  contract `fcntlFdOk` (with `example`s of what the code does when `F_GETFD` / `F_SETFD` fails).
+* `fd_closed_once` (+ `_balanced`, `_all_freed`, `_run`): descriptor balance along any sequence of API calls
+  from the empty world.  Kernel contract, as predicates on the trace: `FreshFrom []` (numbers handed out by
+  `socket()` / `accept()` are not open at that moment) and `ClosesSucceed` (every `close()` returns 0).
+  Caller discipline `WCall.Disciplined`: new objects go to empty slots; `WCall.newFromFd` (adoption of a
+  caller-owned descriptor) is excluded from the sequences.
+  Per-call effects on `fdTable`: `new_fdTable`, `accept_fdTable`, `close_fdTable`, `free_fdTable`,
+  `callM_fdn` + `callM_keeps` (all other calls), `wstep_fdTable` (one world step).
+* Tools: `M.bind_ok` / `sys_ok` (run decomposition), `RetAll` (+ tactic `ret_all`) — the counterpart of `TrAll`
+  for returned values, `new_ok` / `accept_ok` / `close_ok` / `free_ok` (shape of one run of these functions).
 -/
 set_option linter.unusedSimpArgs false
 set_option linter.unusedVariables false
@@ -1360,8 +1369,8 @@ theorem close_fdTable {s s' : Sock} {e : Option PErr} {b : Bool} {st st' : St} {
     (s.closed = true → evs = [] ∧ s' = s) ∧
     (s.closed = false → fdTable evs T = some (T.erase s.fd) ∧ s'.closed = true ∧ s'.fd = -1) := by
   rcases close_ok h with ⟨hc, rfl, rfl⟩ | ⟨hc, rc, rfl, hrc⟩
-  · exact ⟨fun _ => ⟨rfl, rfl⟩, fun h => by rw [hc] at h; cases h⟩
-  · refine ⟨fun h => by rw [hc] at h; cases h, fun _ => ?_⟩
+  · exact ⟨fun _ => ⟨rfl, rfl⟩, fun h => (by rw [hc] at h; cases h)⟩
+  · refine ⟨fun h => (by rw [hc] at h; cases h), fun _ => ?_⟩
     have h0 : rc.ret = .ok 0 := hcl ⟨.close s.fd, rc⟩ (by simp) rfl
     rcases hrc with ⟨_, rfl⟩ | ⟨hne, _⟩
     · refine ⟨?_, rfl, rfl⟩
@@ -1374,8 +1383,8 @@ theorem free_fdTable {s : Sock} {u : Unit} {st st' : St} {evs : List Ev} (h : fr
     (T : List Int) (hm : s.closed = false → s.fd ∈ T) :
     (s.closed = true → evs = []) ∧ (s.closed = false → fdTable evs T = some (T.erase s.fd)) := by
   rcases free_ok h with ⟨hc, rfl⟩ | ⟨hc, rc, rfl⟩
-  · exact ⟨fun _ => rfl, fun h => by rw [hc] at h; cases h⟩
-  · refine ⟨fun h => by rw [hc] at h; cases h, fun _ => ?_⟩
+  · exact ⟨fun _ => rfl, fun h => (by rw [hc] at h; cases h)⟩
+  · refine ⟨fun h => (by rw [hc] at h; cases h), fun _ => ?_⟩
     rw [fdTable_close _ _ _ _ (hm hc)]; rfl
 
 /-! ## C10 `fd_closed_once` -/
@@ -1520,11 +1529,3 @@ example :
 
 end PV.Socket
 
-open PV.Socket in
-#print axioms cloexec_new
-open PV.Socket in
-#print axioms cloexec_accept
-open PV.Socket in
-#print axioms fd_closed_once_run
-open PV.Socket in
-#print axioms fd_closed_once_balanced
